@@ -14,6 +14,8 @@ import ast
 
 from sa import AnalysisError
 from sa.astutil import dotted, src, stmt_text, params, find_stmts, calls_in, method_name, const
+from sa.algebra import Poly, Unsupported
+from sa.flatindex import Exec, Inexact, row_major, symbols, product
 
 
 def _sym_tuple(e, shape):
@@ -69,14 +71,20 @@ def check_strides(model, rep):
     if len(asg) != 1 or len(uses) != 1 or len(flats) != 1:
         raise AnalysisError('Inflate._assparse: stride vector, its use or the flattened dof map not found')
     bad = None
-    for n in range(1, 5):
-        shape = [(f's{k}',) for k in range(n)]
-        got = [tuple(x) for x in _sym_tuple(asg[0].value, shape)]
-        want = [tuple(sorted(sum((shape[j] for j in range(k + 1, n)), ()))) for k in range(n)]
-        if got != want:
-            bad = (n, got, want)
-            break
-    fmt = lambda v: '(' + ', '.join('*'.join(m) or '1' for m in v) + ')'
+    try:
+        for n in range(1, 5):
+            i, sh = symbols('i', n), symbols('s', n)
+            ex = Exec({}, binder=lambda t, sh=sh: list(sh) if t == 'self.dofmap.shape' else None)
+            strides = ex.ev(asg[0].value)
+            got = Poly.const(0)
+            for a_, b_ in zip(i, strides):
+                got = got + a_ * ex.num(b_)
+            if len(strides) != n or not got == row_major(i, sh):
+                bad = (n, strides, [product(sh[k + 1:]) for k in range(n)])
+                break
+    except Unsupported as e:
+        raise AnalysisError(f'Inflate._assparse: the stride expression uses a construct the symbolic executor does not know: {e}')
+    fmt = lambda v: '(' + ', '.join(repr(x) for x in v) + ')'
     rep.ob('R05.6', f.key, f.where(asg[0]), bad is None, 'the stride vector of the flattened dof map is row-major for 1..4 axes (symbolic evaluation)' if bad is None else
            f'for a dof map of {bad[0]} axes `{src(asg[0].value)[:70]}` evaluates to strides {fmt(bad[1])}; the row-major flattening of _flat needs {fmt(bad[2])}: the sparse values are scattered to the wrong dofs', statement='row-major-strides')
 
@@ -142,14 +150,42 @@ def run(model, rep, tier):
     sl = [s for s in find_stmts(f.body, lambda s: isinstance(s, ast.Assign)) if src(s.targets[0]) == 'slices']
     ok5 = len(sl) == 1 and src(sl[0].value).replace(' ', '') == '[Range(length)+offsetforlength,offsetinzip(lengths,util.cumsum(lengths))]'
     rep.ob('R05.1', f.key, f.where(sl[0]) if sl else f.where(), ok5, 'each part addresses its own slice of the inverse map (offsets = cumulative lengths)' if ok5 else 'the per-part slices of the inverse map changed', statement='part-slices')
-    # R05.2
-    fl = [s for s in ast.walk(f.node) if isinstance(s, ast.For) and src(s.iter).replace(' ', '') == 'zip(self.shape[1:],indices)']
-    ok = len(fl) == 1 and any(isinstance(b, ast.Assign) and src(b.targets[0]) == 'flatindex' and src(b.value).replace(' ', '') == f'flatindex*{src(fl[0].target.elts[0])}+{src(fl[0].target.elts[1])}' for b in fl[0].body)
-    rep.ob('R05.2', f.key, f.where(fl[0]) if fl else f.where(), ok, 'flat index = row-major ravel over self.shape[1:]' if ok else 'the flattening loop is no longer flatindex = flatindex * n + index over zip(self.shape[1:], indices)', statement='ravel')
-    ul = [s for s in ast.walk(f.node) if isinstance(s, ast.For) and src(s.iter).replace(' ', '') == 'reversed(self.shape[1:])']
-    ok = len(ul) == 1 and any(isinstance(b, ast.Assign) and src(b.targets[0]) == 'indices[:1]' and src(b.value).replace(' ', '') == f'divmod(indices[0],{src(ul[0].target)})' for b in ul[0].body)
-    rep.ob('R05.2', f.key, f.where(ul[0]) if ul else f.where(), ok, 'unravel = repeated divmod by the same lengths in reverse order' if ok else
-           'the unravel loop does not divmod by reversed(self.shape[1:]): indices of arrays with unequal axis lengths are decoded wrongly', statement='unravel')
+    # R05.2: ravel and unravel, executed symbolically for 1..4 axes (sa/flatindex.py)
+    outer = [l for l in ast.walk(f.node) if isinstance(l, ast.For) and src(l.iter) == 'self._assparse']
+    fl = [l for o in outer for l in o.body if isinstance(l, ast.For)]
+    ul = [l for l in ast.walk(f.node) if isinstance(l, ast.For) and any('divmod' in src(b) for b in l.body)]
+    init = [s_ for s_ in find_stmts(f.body, lambda s_: isinstance(s_, ast.Assign)) if src(s_.targets[0]) == 'indices' and isinstance(s_.value, ast.List)]
+    if len(outer) != 1 or len(fl) != 1 or len(ul) != 1 or not init:
+        raise AnalysisError('Array.assparse: flattening loop or unravel loop not found')
+    tnames = [n.id for n in ast.walk(outer[0].target) if isinstance(n, ast.Name)]
+    bad_r = bad_u = None
+    try:
+        for n in range(1, 5):
+            i, sh = symbols('i', n), symbols('s', n)
+            ex = Exec({}, binder=lambda t, sh=sh: list(sh) if t == 'self.shape' else None)
+            ex.bind(outer[0].target, [i[0], *i[1:], Poly.atom('values')])
+            env = ex.run([fl[0]])
+            got = env[tnames[0]]
+            if not got == row_major(i, sh):
+                bad_r = (n, got, row_major(i, sh))
+                break
+        for n in range(1, 5):
+            i, sh = symbols('i', n), symbols('s', n)
+            ex = Exec({'flatindex': row_major(i, sh)}, binder=lambda t, sh=sh: list(sh) if t == 'self.shape' else None)
+            try:
+                env = ex.run([init[-1], ul[0]])
+            except Inexact as e:
+                bad_u = (n, str(e), i)
+                break
+            if env['indices'] != i:
+                bad_u = (n, env['indices'], i)
+                break
+    except Unsupported as e:
+        raise AnalysisError(f'Array.assparse: the ravel/unravel loops use a construct the symbolic executor does not know: {e}')
+    rep.ob('R05.2', f.key, f.where(fl[0]), bad_r is None, 'flat index = row-major ravel of the index tuple over self.shape (symbolic execution, 1..4 axes)' if bad_r is None else
+           f'for {bad_r[0]} axes the flattening loop computes {bad_r[1]!r}, not the row-major flat index {bad_r[2]!r}: index tuples are merged and ordered wrongly', statement='ravel')
+    rep.ob('R05.2', f.key, f.where(ul[0]), bad_u is None, 'unravel inverts the ravel: repeated divmod returns the index tuple (symbolic execution under 0 <= i_k < s_k, 1..4 axes)' if bad_u is None else
+           f'for {bad_u[0]} axes the unravel loop returns {bad_u[1]!r} for the flat index of {bad_u[2]!r}: indices of arrays with unequal axis lengths are decoded wrongly', statement='unravel')
     # R05.3
     uq = model.func('evaluable:unique')
     t = src(uq.node)
